@@ -4,8 +4,10 @@ import (
 	"encoding/json"
 	"fmt"
 	"os"
+	"runtime/pprof"
 	"sort"
 	"sync/atomic"
+	"syscall"
 	"time"
 )
 
@@ -272,10 +274,18 @@ func (w *worker) finish(start time.Time, out string) {
 }
 
 // RunWorker explores the shard's part of the choice tree and writes the result.
-func RunWorker(p *Prop, tier, variant string, shard, nshards int, out string, budget time.Duration) {
+func RunWorker(p *Prop, tier, variant string, shard, nshards int, out string, budget time.Duration, bound int) {
 	start := time.Now()
+	if pf := os.Getenv("VERIF_CPUPROFILE"); pf != "" && shard == 0 {
+		f, _ := os.Create(pf)
+		pprof.StartCPUProfile(f)
+		defer pprof.StopCPUProfile()
+	}
 	w := newWorker(p, tier, variant)
 	w.res.Shard = shard
+	if bound >= 0 {
+		w.bound = bound
+	}
 	w.deadline = start.Add(budget)
 	caseDeadline := p.CaseDeadline
 	if caseDeadline == 0 {
@@ -336,7 +346,16 @@ func RunWorker(p *Prop, tier, variant string, shard, nshards int, out string, bu
 			w.explore(nil)
 		}
 	} else {
-		for c0 := shard; c0 < n0; c0 += nshards {
+		// root alternatives are handed out dynamically through a shared
+		// ticket file so that uneven sub-trees balance across workers
+		next := func() int { return -1 }
+		if q := os.Getenv("VERIF_QUEUE"); q != "" {
+			next = func() int { return takeTicket(q) }
+		} else {
+			c := shard - nshards
+			next = func() int { c += nshards; return c }
+		}
+		for c0 := next(); c0 >= 0 && c0 < n0; c0 = next() {
 			if c0 > 0 && px.points[0].dev && w.bound < 1 {
 				break
 			}
@@ -365,4 +384,24 @@ func RunReplay(p *Prop, v *Violation) (fail *Failure) {
 	}
 	fmt.Println("CASE", x.description())
 	return x.fail
+}
+
+// takeTicket atomically fetches and increments the counter stored in path.
+func takeTicket(path string) int {
+	f, err := os.OpenFile(path, os.O_RDWR|os.O_CREATE, 0o644)
+	if err != nil {
+		panic("HARNESS-ERROR ticket file: " + err.Error())
+	}
+	defer f.Close()
+	if err := syscall.Flock(int(f.Fd()), syscall.LOCK_EX); err != nil {
+		panic("HARNESS-ERROR flock: " + err.Error())
+	}
+	defer syscall.Flock(int(f.Fd()), syscall.LOCK_UN)
+	var buf [32]byte
+	n, _ := f.ReadAt(buf[:], 0)
+	v := 0
+	fmt.Sscanf(string(buf[:n]), "%d", &v)
+	f.Truncate(0)
+	f.WriteAt([]byte(fmt.Sprintf("%d", v+1)), 0)
+	return v
 }
